@@ -156,10 +156,12 @@ def pinned_sched_cases():
                     hosts.append({"name": t.decode(), "out": [[0, hexs(o_payload)]], "err": [[0, hexs(e_payload)]]})
                     streams[(i, "o")] = o_payload
                     streams[(i, "e")] = e_payload
-                c = {"fanout": 4, "hosts": hosts, "seed": seed, "yield": "all", "inline": 0, "budget": 60000,
+                # `misc` = every other mutex is a scheduling point too (the per-buffer cbuf mutexes): the window between
+                # cbuf_read() filling a buffer and _verr() copying it contains no other wrapped call than that unlock
+                c = {"fanout": 4, "hosts": hosts, "seed": seed, "yield": "all,misc", "inline": 0, "budget": 60000,
                      "opts": {"labels": 1, "sopt": 1, "K": 0}, "strategy": strat, "tickrate": 0}
                 if strat == "pct":
-                    c["pct"] = [2 + seed % 4, 400]
+                    c["pct"] = [2 + seed % 4, 900]
                 out.append((c, {"targets": targets, "labels": True, "K": False, "streams": streams, "strategy": strat,
                                 "abandoned": [], "pinned": "same-step-%s" % form}))
     # a descriptor in ERROR (poll(2) says POLLERR and nothing else; the read then fails with EIO): xpoll must hand it
